@@ -64,14 +64,14 @@ def run(case):
         if relerr(D, Dref) > 1e-10:
             F.append(Finding("oracle", "input_data_is_preprocessed", cc, f"input_data differs from independent preprocessing by {relerr(D, Dref):.2e}"))
     elif cls == "HilbertEOF":
-        re_ref = Dref.real - Dref.real.mean(axis=0)
+        re_ref = Dref.real
         if relerr(D.real, re_ref) > 1e-9:
             F.append(Finding("oracle", "hilbert_real_part", cc, f"real part of augmented data differs by {relerr(D.real, re_ref):.2e}"))
         if case.get("padding") == "none":
             from scipy.signal import hilbert as sp_hilbert
 
             h = sp_hilbert(Dref.real, axis=0)
-            h = h - h.mean(axis=0)
+            h = h - 1j * h.imag.mean(axis=0)
             if relerr(D, h) > 1e-9:
                 F.append(Finding("oracle", "hilbert_analytic_signal", cc, f"augmented data differs from scipy analytic signal by {relerr(D, h):.2e}"))
     elif cls == "ExtendedEOF":
@@ -143,7 +143,7 @@ def run(case):
     if errEig > (1e-8 if exact else 1e-4):
         F.append(Finding("oracle", "expvar_eigen", cc, f"|cov C - C diag(ev)| rel {errEig:.2e}"))
     # ratios against the total variance of the same anomalies (centring on)
-    if case["center"] or cls in ("ExtendedEOF", "HilbertEOF"):
+    if case["center"] or cls == "ExtendedEOF":
         tr = float(np.trace(cov).real)
         if tr > 0:
             ratio = np.asarray(m.explained_variance_ratio().values)
